@@ -771,7 +771,7 @@ def ln1(ctx, R):
     # every increment of num_values is the funnel applied to the current object and segment
     incs = [n for f_ in prog.functions.values() if f_.module.name == "reader" for n in walk_body(f_.node)
             if isinstance(n, ast.AugAssign) and isinstance(n.target, ast.Attribute) and n.target.attr == "num_values"]
-    stores = [n for f in prog.functions.values() for n in walk_body(f.node)
+    stores = [n for f in prog.functions.values() if f.module.name == "reader" for n in walk_body(f.node)
               if isinstance(n, (ast.AugAssign, ast.Assign)) and any(isinstance(t, ast.Attribute) and t.attr == "num_values"
                                                                    for t in (n.targets if isinstance(n, ast.Assign) else [n.target]))]
     if not incs:
@@ -812,7 +812,21 @@ def ln1(ctx, R):
         shown = val
         for a, b_, g in vals:
             b = match(("call", nsv.qual, (W("obj"), W("seg")), ()), a) if a is not None else None
-            if not (b is not None and b["obj"][0] in ("bv", "param", "item") and mentions(b_, b["obj"])):
+            ok_ = b is not None and b["obj"][0] in ("bv", "param", "item") and mentions(b_, b["obj"])
+            if not ok_ and b is not None and b["obj"][0] == "param" and g is f and f.cls is not None and b_ in (("param", "self"), ("name", "self")):
+                # a method of the metadata object that is given the segment object: which metadata object it is called on is the
+                # caller's business -- there the receiver must be looked up from the object that is passed
+                from .sem import calls_to as _ct, call_arg as _ca
+                sites = [(h, c) for h in prog.functions.values() if h.module.name == "reader" for c in _ct(prog, h, f.qual, h.cls)]
+                ok_ = bool(sites)
+                for h, c in sites:
+                    sh = Sym(prog, h, h.cls, stack=(nsv.qual,))
+                    e3, _ = sh.env_at(c)
+                    a_obj = _ca(prog, c, f, b["obj"][1], sh, e3)
+                    recv = sh.expr(c.func.value, e3) if isinstance(c.func, ast.Attribute) else None
+                    if a_obj is None or recv is None or not mentions(recv, a_obj):
+                        ok_ = False
+            if not ok_:
                 good = False
                 shown = a
         R.check(good, key, f.where(n), "accumulates _number_of_segment_values(<this object>, <this segment>)",
